@@ -72,11 +72,11 @@ Definition rd_ctx_eqb (a b : rd_ctx) : bool :=
 
 Definition no_desc (K : sctx) : sctx := mk_sctx (sc_onames K) (sc_anames K) None (sc_table K).
 
-(* the property's quantifier, per format (for csv: as stated, before the guard of D21) *)
+(* the property's quantifier, per format *)
 Definition ctx_stated (fmt : nat) (sep : N) (wt wf : str) (K : sctx) : bool :=
   match fmt with
   | 0 => cxt_admissibleb K
-  | 1 => csv_statedb sep wt wf K
+  | 1 => csv_admissibleb sep wt wf K
   | _ => table_okb K
   end.
 
@@ -88,9 +88,7 @@ Definition ctx_check (fmt : nat) (sep : N) (wt wf : str) (K : sctx) (w : written
                  end in
   let expect := if Nat.eqb fmt 2 then K else no_desc K in
   let ok := negb (ctx_stated fmt sep wt wf K) || rd_ctx_eqb r (RCtx expect) in
-  let guard := negb (Nat.eqb fmt 1) || D21_guard sep in
-  if ok then (if same then 0 else if guard then 1 else 11)
-  else if guard then code_of same false else 10 + code_of same false.
+  code_of same ok.
 
 (* ---------------------------------------------------------------- many-valued contexts *)
 
@@ -190,7 +188,7 @@ Definition c07_check (c : c07_case) : nat :=
   end.
 
 Inductive c07_shown :=
-| ShCtx (admissible guard : bool) (w : written) (r : option rd_ctx)
+| ShCtx (admissible : bool) (w : written) (r : option rd_ctx)
 | ShMv (admissible : bool) (w : written) (r : option rd_mv)
 | ShFc (admissible : bool) (w : written) (r : option rd_fc)
 | ShPc (admissible : bool) (w : written) (r : option rd_pc)
@@ -199,7 +197,7 @@ Inductive c07_shown :=
 Definition c07_show (c : c07_case) : c07_shown :=
   match c with
   | CtxCase fmt sep wt wf K w _ =>
-      ShCtx (ctx_stated fmt sep wt wf K) (negb (Nat.eqb fmt 1) || D21_guard sep)
+      ShCtx (ctx_stated fmt sep wt wf K)
             (ctx_model_write fmt sep wt wf K) (ctx_model_read fmt sep wt wf w)
   | MvCase K w _ =>
       ShMv (mv_admissibleb K) (w_of_jv (write_mv_json K))
